@@ -67,6 +67,7 @@ type Prog struct {
 	fnByKey   map[string]*ssa.Function
 	assumptionsLog map[string]bool
 	embed     map[string]bool
+	ghostComps map[string]*GhostComp
 }
 
 var repoPkgs = []string{"./semver", "./module", "./modfile", "./zip", "./sumdb", "./sumdb/tlog", "./sumdb/note", "./sumdb/dirhash", "./sumdb/storage", "./internal/lazyregexp"}
@@ -218,6 +219,13 @@ func (P *Prog) register(cf *ContractFile, tp *types.Package) error {
 		P.globals = append(P.globals, g)
 	}
 	P.rawSMT = append(P.rawSMT, cf.RawSMT...)
+	for _, g := range cf.Ghosts {
+		g.Pkg = cf.Pkg
+		if P.ghostComps == nil {
+			P.ghostComps = map[string]*GhostComp{}
+		}
+		P.ghostComps[g.Name] = g
+	}
 	return nil
 }
 
